@@ -824,9 +824,15 @@ def r11(R):
     def edge1(node, st, lab, tgt):
         if node.kind == 'test' and lab in ('T', 'F') and st == 'remembered':
             for x in ast.walk(node.ast):
-                if isinstance(x, ast.Compare) and any(
-                        isinstance(y, ast.Attribute) and y.attr == '_p_oid'
-                        for y in [x.left] + list(x.comparators)):
+                # `<target>._p_oid != oid`: against the REMEMBERED oid (a
+                # test for None only says that the target is unowned now;
+                # re-added, it has another oid than the remembered one)
+                sides = [x.left] + list(x.comparators) if isinstance(
+                    x, ast.Compare) else []
+                if any(isinstance(y, ast.Attribute) and y.attr == '_p_oid'
+                       for y in sides) and any(
+                        isinstance(y, ast.Name) and y.id in oidvars
+                        for y in sides):
                     return 'held-against-target'
         if lab in ('e', 'eb'):
             return st
